@@ -384,6 +384,8 @@ VALUES = [
     ("union", ("tuple", ("int",)), ("tuple", ("int",), ("int",))), ("pvtuple", ("int",), ("int",)), ("enum",),
     ("union", ("enum",), ("none",)), ("cls", "A"), ("union", ("cls", "B"), ("int",)), ("type", "A"), ("union", ("float",), ("str",)),
     ("lit", True), ("union", ("lit", "a"), ("int",)), ("type", "B"), ("union", ("type", "A"), ("none",)),
+    ("list", ("int",)), ("union", ("list", ("int",)), ("none",)), ("union", ("str",), ("vtuple", ("int",))),
+    ("dict", ("str",), ("int",)), ("union", ("lit", P0), ("lit", "a"), ("none",)), ("union", ("cls", "A"), ("cls", "B"), ("none",)),
 ]
 
 CONDS = (
